@@ -6,6 +6,7 @@ import EsbuildModel.Impl.DataUrl
 import EsbuildModel.Impl.Quote
 import EsbuildModel.Impl.Exports
 import EsbuildModel.Impl.CssHex
+import EsbuildModel.Impl.Split
 
 open EsbuildModel
 
@@ -19,6 +20,7 @@ def dispatch (kernel : String) (args : List String) : String :=
   | "quote" => Quote.driver args
   | "exports" => Exports.driver args
   | "csshex" => CssHex.driver args
+  | "split" => Split.driver args
   | _ => "bad-kernel"
 
 partial def loop (hin hout : IO.FS.Stream) : IO Unit := do
